@@ -774,14 +774,14 @@ def extra_C19(rng, tier, st, cov):
     other calls) and hep::vegas with a callback that takes the checkpoint by reference and discards an iteration"""
     out = []; n = 0
     for t in ('d', 'f', 'l'):
-        for variant in ('loop', 'callback'):
+        for variant in ('loop', 'callback', 'mcloop', 'mccallback'):
             for _ in range(2 if tier == 'quick' else 8):
                 line = dump([1, t, 'userloop', [variant, rng.choice([10, 20, 45]), rng.getrandbits(30)], []])
                 rc, o = run_one(st['cxx_exe'], line)
                 n += 1
                 if rc != 0 or not o or not isinstance(o[1], list) or o[1][0] != 'ok':
                     msgs = [x.decode(errors='replace') for x in (o[1][2:] if o and isinstance(o[1], list) else []) if isinstance(x, bytes)]
-                    out.append(viol('VEGAS %s: %s' % ('driven by the user\'s own loop (pdf, vegas_iteration, add, rollback, repeat)' if variant == 'loop' else 'with a callback that discards an iteration through its checkpoint reference',
+                    out.append(viol('%s %s: %s' % ('multi-channel' if variant.startswith('mc') else 'VEGAS', 'driven by the user\'s own loop (state accessor, *_iteration, add, rollback, repeat)' if variant.endswith('loop') else 'with a callback that discards an iteration through its checkpoint reference',
                                                       '; '.join(msgs) or 'the run failed (%s)' % rc), [], {'spec': line}))
     cov.setdefault('extra', {})['user_driven_loops'] = {'runs': n}
     return out
